@@ -54,9 +54,20 @@ func IsError(t types.Type) bool {
 	return false
 }
 
+// ZeroValue returns the zero value as a string, for a given type,
+// using typeString to print the type of a composite literal where one is needed.
+func ZeroValue(typ types.Type, typeString func(types.Type) string) string {
+	switch typ.Underlying().(type) {
+	case *types.Struct, *types.Array:
+		return typeString(typ) + "{}"
+	}
+	return Zero(typ)
+}
+
 // Zero returns the zero value as a string, for a given type.
+// Structs and arrays need a type name, see ZeroValue.
 func Zero(typ types.Type) string {
-	switch t := typ.(type) {
+	switch t := typ.Underlying().(type) {
 	case *types.Basic:
 		switch t.Kind() {
 		case types.String:
